@@ -3,7 +3,7 @@
    OCaml types; nat, positive, N, Z stay Coq datatypes.  No Extract Constant of our own.
    Run with the current directory set to the output directory (driver/extracted). *)
 From Coq Require Import Extraction ExtrOcamlBasic.
-From Crusta Require Import Spec.AF Sat.Cnf Sat.Prog Model.Store Model.Encoders Model.Graph Model.Solvers.
+From Crusta Require Import Spec.AF Sat.Cnf Sat.Prog Model.Store Model.Encoders Model.Graph Model.Solvers Model.Readers Model.Writers.
 Extraction Language OCaml.
 Separate Extraction
   (* spec oracle *)
@@ -20,4 +20,9 @@ Separate Extraction
   (* SAT programs, graph algorithms, static solvers *)
   Prog.init_st Prog.log_of Prog.script_oracle Prog.run
   Graph.view_of_fw Graph.view_of_af Graph.grounded Graph.all_ccs Graph.merged_cc_of Graph.cc_new
-  Solvers.run_query.
+  Solvers.run_query
+  (* readers and writers (C13, C14) *)
+  Readers.read_iccma Readers.read_apx Readers.iccma_read_arg Readers.apx_read_arg Readers.observe
+  Readers.utf8_decode Readers.lines
+  Writers.write_apx Writers.write_w Writers.write_bracket Writers.write_no Writers.write_status
+  Writers.utf8_encode Writers.dec Writers.dec_nat Writers.parse_w Writers.parse_bracket.
